@@ -249,4 +249,16 @@ def decl_search():
         if got != (sorted(attrs), rtype):
             return {"confirmed": True, "input": {"statement": stmt}, "actual": {"attributes": got[0], "result type": got[1]}, "expected": {"attributes": sorted(attrs), "result type": rtype},
                     "how": "real parser; prefix of a function statement"}
+    # the suffix of a function statement: RESULT and BIND in either order; the binding label is the text inside bind(...) and nothing else
+    for stmt, bindc, res in (('function f(x) bind(c, name="f_c") result(rr)', 'c, name="f_c"', "rr"), ('function f(x) result(rr) bind(c, name="f_c")', 'c, name="f_c"', "rr"),
+                             ("function f(x) bind(c) result(rr)", "c", "rr"), ("function f(x) result(rr)", None, "rr"), ("function f(x) bind(C, name='q(1)')", "C, name='q(1)'", "f")):
+        src = f"module m\ncontains\n  {stmt}\n    integer :: x, rr\n  end function f\nend module m\n"
+        try:
+            fn = realrun.parse_source(src).modules[0].functions[0]
+            got = (fn.bindC, fn.retvar.name if not isinstance(fn.retvar, str) else fn.retvar)
+        except Exception as ex:
+            got = (f"{type(ex).__name__}: {ex}", "")
+        if got != (bindc, res):
+            return {"confirmed": True, "input": {"statement": stmt}, "actual": {"bind": got[0], "result": got[1]}, "expected": {"bind": bindc, "result": res},
+                    "how": "real parser; suffix of a function statement (the heading shows `bind(<label>)`)"}
     return None
